@@ -20,7 +20,9 @@ meta  = {"ltr":"CAMEL"|..|null,"dtr":..,"raise":bool|null,"skipdef":bool|null,"r
         "jk2f":{"obj":id,"map":{json key: field}}   - equal "obj" ids denote the SAME Python object
 value = null | {"i":int} | {"s":str} | {"b":bool} | {"dt":iso} | {"c":cid,"f":[[name,value],...]}
         | {"sub":{"mixins":[..],"chain":[..],"root":"int"|"str"|"obj"|"list"},"z":int}   (list: items [z, z+1])
-field types: "int" | "str" | {"nested":cid} | extended: "datetime" | "any" | "bool" | "badcond"
+value (extended) also {"l":[value,..]} | {"d":[[key,value],..]}
+field types: "int" | "str" | {"nested":cid} | extended: "datetime" | "any" | "bool" | "badcond" | "ulit_str" |
+        "ulit_int" | "opt_int" | "list_int" | "dict_int" | "catchall" | {"fwd":cid,"qn":qn} (= list['<name>'])"
         (badcond = Annotated[bool, IS_NOT(True)]: a bare Condition, the dump setup of the class raises)
 
 Outcome text (same syntax as coq/model/StateShow.v; classes named by cid in values, by
@@ -36,9 +38,11 @@ logging.disable(logging.CRITICAL)
 META_KEYS = [('ltr', 'key_transform_with_load'), ('dtr', 'key_transform_with_dump'),
              ('raise', 'raise_on_unknown_json_key'), ('skipdef', 'skip_defaults'), ('rec', 'recursive'),
              ('auto_tags', 'auto_assign_tags'), ('tag_key', 'tag_key'), ('marshal', 'marshal_date_time_as'),
-             ('skip_if', 'skip_if'), ('jk2f', 'json_key_to_field')]
+             ('skip_if', 'skip_if'), ('jk2f', 'json_key_to_field'), ('v1', 'v1'), ('v1_case', 'v1_key_case')]
 ANN = {'int': 'int', 'str': 'str', 'datetime': 'datetime', 'any': 'Any', 'bool': 'bool',
-       'badcond': 'Annotated[bool, IS_NOT(True)]'}
+       'badcond': 'Annotated[bool, IS_NOT(True)]',
+       'ulit_str': "Union[Literal['fast', 'slow'], str]", 'ulit_int': 'Union[Literal[1, 2], int]',
+       'opt_int': 'Optional[int]', 'list_int': 'list[int]', 'dict_int': 'dict[str, int]', 'catchall': 'CatchAll'}
 
 
 def hx(s):
@@ -60,8 +64,9 @@ class Job:
             name = 'dwv_%s_%s' % (self.salt, key)
             m = types.ModuleType(name)
             sys.modules[name] = m
-            exec('from dataclasses import dataclass\nfrom datetime import datetime\nfrom typing import Any, Annotated\n'
-                 'from dataclass_wizard import JSONWizard, IS_NOT\n', m.__dict__)
+            exec('from dataclasses import dataclass\nfrom datetime import datetime\n'
+                 'from typing import Any, Annotated, Union, Literal, Optional\n'
+                 'from dataclass_wizard import JSONWizard, IS_NOT, CatchAll\n', m.__dict__)
             self.mods[key] = m
         return self.mods[key]
 
@@ -105,7 +110,10 @@ class Job:
                     body.append('        %s = _MV_%s' % (attr, k))
             lines.extend(body or ['        pass'])
         for i, (fname, fty, dflt) in enumerate(o['own_fields']):
-            if isinstance(fty, dict):
+            if isinstance(fty, dict) and 'fwd' in fty:
+                # forward reference (by name, inside a container) to a class of this module defined LATER
+                ann = "list['%s']" % self.cname(fty['qn'])
+            elif isinstance(fty, dict):
                 ns['_N%d' % i] = self.classes[fty['nested']]
                 ann = '_N%d' % i
             else:
@@ -160,6 +168,10 @@ class Job:
             return v['s']
         if 'b' in v:
             return v['b']
+        if 'l' in v:
+            return [self.value(x) for x in v['l']]
+        if 'd' in v:
+            return {k: self.value(x) for k, x in v['d']}
         if 'dt' in v:
             import datetime
             return datetime.datetime.fromisoformat(v['dt'])
